@@ -319,6 +319,11 @@ class Replayer:
         elif action == "StdPolarAll":
             std = list(self.cplx)
         for z in std:
+            shared = any((z + "r") in g or (z + "i") in g for g in before["same"])
+            if not before["polar"][z] and shared:
+                continue  # a Cartesian parameter with a tied component cannot be standardised
+            if action == "StdPolarAll" and shared:
+                continue  # parameters with a tied radius / phase cannot all be standard at once
             r, p = after["vals"][z + "r"], after["vals"][z + "i"]
             if not after["polar"][z] or r < -1e-12 or p < -math.pi - 1e-12 or not (p < math.pi):
                 out.append(("StandardForm", "%s: polar=%s r=%r phi=%r" % (z, after["polar"][z], r, p)))
